@@ -232,8 +232,13 @@ class World:
         return {"op": "zero", "args": {"n": r.choice([1, 2, 3, 4, 0, -1, 2.0])}}
 
     def _gen_dicke(self, r, cfg):
-        n = r.randint(1, 8) if r.random() < 0.85 else r.randint(9, 11)
+        # the run's own register size comes up again and again (those objects join the pool and are mutated by
+        # later steps, then the same state is asked for once more); other sizes up to 11 qubits in between
+        x = r.random()
+        n = cfg["n"] if x < 0.45 else (r.randint(1, 8) if x < 0.88 else r.randint(9, 11))
         k = r.randint(0, n) if r.random() < 0.8 else r.choice([-1, n + 1, n + 3, 1.0, -2])
+        if x < 0.45 and r.random() < 0.5:
+            k = min(n, 1)
         return {"op": "dicke", "args": {"n": n, "k": k}}
 
     def _gen_setitem(self, r, cfg):
